@@ -796,6 +796,8 @@ def direct_field(body, operand, max_hops=4):
         rv = defs[0][3]['rv']
         if rv['k'] == 'use':
             op = rv['op']
+        elif rv['k'] in ('ref', 'rawptr'):
+            op = {'c': rv['p']}
         elif rv['k'] == 'un' and rv['op'] == 'Not':
             neg = not neg
             op = rv['a']
